@@ -352,6 +352,8 @@ func main() {
 			}
 		}
 	}
+	ntp, tslow := transportPath(out, r, thorough)
+	fmt.Fprintf(os.Stderr, "c17 driver: %d transport/writer end-to-end cases (slowest %v)\n", ntp, tslow.Round(time.Millisecond))
 	out.Flush()
 	fmt.Fprintf(os.Stderr, "c17 driver: %d conn cases (%d slower than 2s, worst %v), %d ReadResponse cases over %d apis (%d api versions skipped)\n",
 		nconn, slow, worst.Round(time.Millisecond), nrr, len(apis), skipped)
